@@ -668,7 +668,9 @@ class DatasetBuilder:
         tbl_mask = pa.array(tbl_mask)
         val_col = pa.nulls(e_tbl.num_rows, val_array.type)
         val_col = pc.replace_with_mask(val_col, tbl_mask, val_array)
-        if dictionary:
+        if dictionary and not pa.types.is_null(val_col.type):
+            # (a column without a single value has nothing to encode, and Arrow
+            # cannot take from or concatenate null-valued dictionaries)
             val_col = pc.dictionary_encode(val_col)
 
         self._tables[cls] = e_tbl.append_column(name, val_col)
